@@ -84,6 +84,9 @@ type TermFactory struct {
 	varSet map[string]*Term
 	True   *Term
 	False  *Term
+	// Raw disables every rewrite except constant folding, so that the solver (not the
+	// simplifier) decides the obligations; used by the cross-check runs.
+	Raw bool
 }
 
 func NewTermFactory() *TermFactory {
@@ -181,6 +184,9 @@ func (f *TermFactory) Not(a *Term) *Term {
 	if a.IsConst() {
 		return f.Bool(a.Val == 0)
 	}
+	if f.Raw {
+		return f.mk(Term{Op: OpNot, W: 0, A: a})
+	}
 	if a.Op == OpNot {
 		return a.A
 	}
@@ -188,6 +194,12 @@ func (f *TermFactory) Not(a *Term) *Term {
 }
 
 func (f *TermFactory) And(a, b *Term) *Term {
+	if f.Raw {
+		if a.IsConst() && b.IsConst() {
+			return f.Bool(a.Val != 0 && b.Val != 0)
+		}
+		return f.mk(Term{Op: OpAnd, W: 0, A: a, B: b})
+	}
 	if a.IsConst() {
 		if a.Val == 0 {
 			return f.False
@@ -213,6 +225,12 @@ func (f *TermFactory) And(a, b *Term) *Term {
 }
 
 func (f *TermFactory) Or(a, b *Term) *Term {
+	if f.Raw {
+		if a.IsConst() && b.IsConst() {
+			return f.Bool(a.Val != 0 || b.Val != 0)
+		}
+		return f.mk(Term{Op: OpOr, W: 0, A: a, B: b})
+	}
 	if a.IsConst() {
 		if a.Val != 0 {
 			return f.True
@@ -244,11 +262,14 @@ func (f *TermFactory) Ite(c, a, b *Term) *Term {
 		}
 		return b
 	}
-	if a == b {
-		return a
-	}
 	if a.W != b.W {
 		panic(fmt.Sprintf("Ite width mismatch %d %d", a.W, b.W))
+	}
+	if f.Raw {
+		return f.mk(Term{Op: OpIte, W: a.W, A: c, B: a, C: b})
+	}
+	if a == b {
+		return a
 	}
 	if a.W == 0 {
 		if a.IsConst() && b.IsConst() {
@@ -277,11 +298,14 @@ func (f *TermFactory) Eq(a, b *Term) *Term {
 	if a.W != b.W {
 		panic(fmt.Sprintf("Eq width mismatch %d %d (%s vs %s)", a.W, b.W, a, b))
 	}
-	if a == b {
-		return f.True
-	}
 	if a.IsConst() && b.IsConst() {
 		return f.Bool(a.Val == b.Val)
+	}
+	if f.Raw {
+		return f.mk(Term{Op: OpEq, W: 0, A: a, B: b})
+	}
+	if a == b {
+		return f.True
 	}
 	if a.W == 0 {
 		if a.IsConst() {
@@ -326,6 +350,9 @@ func (f *TermFactory) Add(a, b *Term) *Term {
 	if a.IsConst() && b.IsConst() {
 		return f.Const(a.W, a.Val+b.Val)
 	}
+	if f.Raw {
+		return f.bin(OpBvAdd, a.W, a, b)
+	}
 	if a.IsConst() && a.Val == 0 {
 		return b
 	}
@@ -347,6 +374,9 @@ func (f *TermFactory) Sub(a, b *Term) *Term {
 	if a.IsConst() && b.IsConst() {
 		return f.Const(a.W, a.Val-b.Val)
 	}
+	if f.Raw {
+		return f.bin(OpBvSub, a.W, a, b)
+	}
 	if b.IsConst() {
 		return f.Add(a, f.Const(a.W, -b.Val))
 	}
@@ -360,6 +390,9 @@ func (f *TermFactory) Mul(a, b *Term) *Term {
 	chk(a, b, "mul")
 	if a.IsConst() && b.IsConst() {
 		return f.Const(a.W, a.Val*b.Val)
+	}
+	if f.Raw {
+		return f.bin(OpBvMul, a.W, a, b)
 	}
 	if a.IsConst() {
 		a, b = b, a
@@ -384,6 +417,9 @@ func (f *TermFactory) UDiv(a, b *Term) *Term {
 	if a.IsConst() && b.IsConst() && b.Val != 0 {
 		return f.Const(a.W, a.Val/b.Val)
 	}
+	if f.Raw {
+		return f.bin(OpBvUDiv, a.W, a, b)
+	}
 	if b.IsConst() && b.Val != 0 && b.Val&(b.Val-1) == 0 {
 		return f.Lshr(a, f.Const(a.W, uint64(bits.TrailingZeros64(b.Val))))
 	}
@@ -394,6 +430,9 @@ func (f *TermFactory) URem(a, b *Term) *Term {
 	chk(a, b, "urem")
 	if a.IsConst() && b.IsConst() && b.Val != 0 {
 		return f.Const(a.W, a.Val%b.Val)
+	}
+	if f.Raw {
+		return f.bin(OpBvURem, a.W, a, b)
 	}
 	if b.IsConst() && b.Val != 0 && b.Val&(b.Val-1) == 0 {
 		return f.BvAnd(a, f.Const(a.W, b.Val-1))
@@ -430,6 +469,9 @@ func (f *TermFactory) BvAnd(a, b *Term) *Term {
 	if a.IsConst() && b.IsConst() {
 		return f.Const(a.W, a.Val&b.Val)
 	}
+	if f.Raw {
+		return f.bin(OpBvAnd, a.W, a, b)
+	}
 	if a.IsConst() {
 		a, b = b, a
 	}
@@ -460,6 +502,9 @@ func (f *TermFactory) BvOr(a, b *Term) *Term {
 	chk(a, b, "or")
 	if a.IsConst() && b.IsConst() {
 		return f.Const(a.W, a.Val|b.Val)
+	}
+	if f.Raw {
+		return f.bin(OpBvOr, a.W, a, b)
 	}
 	if a.IsConst() {
 		a, b = b, a
@@ -527,6 +572,9 @@ func (f *TermFactory) BvXor(a, b *Term) *Term {
 	if a.IsConst() && b.IsConst() {
 		return f.Const(a.W, a.Val^b.Val)
 	}
+	if f.Raw {
+		return f.mk(Term{Op: OpBvXor, W: a.W, Args: []*Term{a, b}, Name: "xor"})
+	}
 	var ops []*Term
 	var c uint64
 	add := func(t *Term) {
@@ -581,6 +629,9 @@ func (f *TermFactory) BvNot(a *Term) *Term {
 	if a.IsConst() {
 		return f.Const(a.W, ^a.Val)
 	}
+	if f.Raw {
+		return f.mk(Term{Op: OpBvNot, W: a.W, A: a})
+	}
 	if a.Op == OpBvNot {
 		return a.A
 	}
@@ -597,6 +648,9 @@ func (f *TermFactory) Neg(a *Term) *Term {
 // Shifts: b has the same width as a (callers convert); SMT semantics (shift >= w gives 0 / sign fill) equal Go's.
 func (f *TermFactory) Shl(a, b *Term) *Term {
 	chk(a, b, "shl")
+	if f.Raw && !(a.IsConst() && b.IsConst()) {
+		return f.bin(OpBvShl, a.W, a, b)
+	}
 	if b.IsConst() {
 		k := b.Val
 		if k == 0 {
@@ -619,6 +673,9 @@ func (f *TermFactory) Shl(a, b *Term) *Term {
 
 func (f *TermFactory) Lshr(a, b *Term) *Term {
 	chk(a, b, "lshr")
+	if f.Raw && !(a.IsConst() && b.IsConst()) {
+		return f.bin(OpBvLshr, a.W, a, b)
+	}
 	if b.IsConst() {
 		k := b.Val
 		if k == 0 {
@@ -640,6 +697,9 @@ func (f *TermFactory) Lshr(a, b *Term) *Term {
 
 func (f *TermFactory) Ashr(a, b *Term) *Term {
 	chk(a, b, "ashr")
+	if f.Raw && !(a.IsConst() && b.IsConst()) {
+		return f.bin(OpBvAshr, a.W, a, b)
+	}
 	if b.IsConst() {
 		k := b.Val
 		if k == 0 {
@@ -664,6 +724,9 @@ func (f *TermFactory) Ult(a, b *Term) *Term {
 	if a.IsConst() && b.IsConst() {
 		return f.Bool(a.Val < b.Val)
 	}
+	if f.Raw {
+		return f.bin(OpBvUlt, 0, a, b)
+	}
 	if a == b {
 		return f.False
 	}
@@ -677,6 +740,9 @@ func (f *TermFactory) Ule(a, b *Term) *Term {
 	chk(a, b, "ule")
 	if a.IsConst() && b.IsConst() {
 		return f.Bool(a.Val <= b.Val)
+	}
+	if f.Raw {
+		return f.bin(OpBvUle, 0, a, b)
 	}
 	if a == b {
 		return f.True
@@ -692,6 +758,9 @@ func (f *TermFactory) Slt(a, b *Term) *Term {
 	if a.IsConst() && b.IsConst() {
 		return f.Bool(a.SVal() < b.SVal())
 	}
+	if f.Raw {
+		return f.bin(OpBvSlt, 0, a, b)
+	}
 	if a == b {
 		return f.False
 	}
@@ -702,6 +771,9 @@ func (f *TermFactory) Sle(a, b *Term) *Term {
 	chk(a, b, "sle")
 	if a.IsConst() && b.IsConst() {
 		return f.Bool(a.SVal() <= b.SVal())
+	}
+	if f.Raw {
+		return f.bin(OpBvSle, 0, a, b)
 	}
 	if a == b {
 		return f.True
@@ -716,6 +788,9 @@ func (f *TermFactory) Concat(hi, lo *Term) *Term {
 	}
 	if hi.IsConst() && lo.IsConst() {
 		return f.Const(uint8(w), hi.Val<<lo.W|lo.Val)
+	}
+	if f.Raw {
+		return f.mk(Term{Op: OpConcat, W: uint8(w), A: hi, B: lo})
 	}
 	// concat(extract(h,m+1,x), extract(m,l,x)) = extract(h,l,x)
 	if hi.Op == OpExtract && lo.Op == OpExtract && hi.A == lo.A {
@@ -752,6 +827,9 @@ func (f *TermFactory) Extract(a *Term, hi, lo uint8) *Term {
 	w := hi - lo + 1
 	if w == a.W {
 		return a
+	}
+	if f.Raw && a.Op != OpConst {
+		return f.mk(Term{Op: OpExtract, W: w, A: a, Val: uint64(hi)<<8 | uint64(lo)})
 	}
 	switch a.Op {
 	case OpConst:
@@ -822,6 +900,9 @@ func (f *TermFactory) Zext(a *Term, w uint8) *Term {
 	if w < a.W {
 		panic("zext narrower")
 	}
+	if f.Raw && !a.IsConst() {
+		return f.mk(Term{Op: OpZext, W: w, A: a})
+	}
 	return f.Concat(f.Const(w-a.W, 0), a)
 }
 
@@ -834,6 +915,9 @@ func (f *TermFactory) Sext(a *Term, w uint8) *Term {
 	}
 	if a.IsConst() {
 		return f.Const(w, uint64(a.SVal()))
+	}
+	if f.Raw {
+		return f.mk(Term{Op: OpSext, W: w, A: a})
 	}
 	if a.Op == OpSext {
 		return f.Sext(a.A, w)
